@@ -315,3 +315,29 @@ Definition wire_209 (x : sx) : sx :=
   | L [I t; outs] => L (map of_rop (request_events c20_pool_call_finally c20_request_sleep_in_borrow (Z.to_nat t) (to_Zs outs)))
   | _ => sx_err
   end.
+
+(* ---------- D': threads RUNNING request programs (an interleaving is a schedule of thread ids) ---------- *)
+Close Scope Z_scope.
+Open Scope nat_scope.
+Record rcfg := mkRC { rc_pool : rpool; rc_rem : nat -> list rop }.
+Definition rcupd (f : nat -> list rop) (t : nat) (x : list rop) : nat -> list rop := fun u => if Nat.eqb u t then x else f u.
+Definition rcstep (c : rcfg) (t : nat) : rcfg :=
+  match rc_rem c t with
+  | [] => c
+  | o :: r => mkRC (rstep (rc_pool c) o) (rcupd (rc_rem c) t r)
+  end.
+Definition rcexec (prog : nat -> list rop) (schedule : list nat) : rcfg := fold_left rcstep schedule (mkRC rinit prog).
+(* the program of thread t: its requests one after the other, each with its own list of attempt outcomes *)
+Definition thread_prog (fin sleep_in : bool) (t : nat) (reqs : list (list Z)) : list rop :=
+  flat_map (request_events fin sleep_in t) reqs.
+Definition count_held (t : nat) (p : pool) : nat := List.length (filter (fun h => Nat.eqb (fst h) t) (p_held p)).
+(* what a thread that holds h sessions may still do: borrow only with empty hands, send / give back / lose only with one *)
+Fixpoint okprog (t h : nat) (l : list rop) : bool :=
+  match l with
+  | [] => Nat.eqb h 0
+  | RGet u :: r => Nat.eqb u t && Nat.eqb h 0 && okprog t 1 r
+  | RUse u :: r => Nat.eqb u t && Nat.eqb h 1 && okprog t 1 r
+  | RSleep u :: r => Nat.eqb u t && okprog t h r
+  | RPut u :: r => Nat.eqb u t && Nat.eqb h 1 && okprog t 0 r
+  | RDrop u :: r => Nat.eqb u t && Nat.eqb h 1 && okprog t 0 r
+  end.
